@@ -11,6 +11,8 @@ C03 - what is documented in each namespace is what Python defines there.  Claime
   R03.9 every name-binding target form of an assignment is taken apart (Tuple, List, Starred, nested)
   R03.10 x = wrapper(x) changes a kind only for the same name; no alias for a documented name
   R03.11 the pending attribute-docstring target is cleared when a property has been handled
+  R03.12 class-level assignments: an inherited non-attribute vetoes the variable only when the value wraps it; binding `__doc__` sets the docstring;
+         a name re-bound by unpacking forgets the value of its earlier assignment
 Does not decide: the differential statement against the interpreter (members, docstrings, kinds for every program).
 """
 from __future__ import annotations
@@ -416,6 +418,7 @@ def run(repo: Repo, chk: Check, thorough: bool = False) -> None:
     chk.require('R03.9', 3)
 
     check_r03_11(repo, chk)
+    check_r03_12(repo, chk)
     # ------------------------------------------------------------------ R03.10
     # `x = staticmethod(x)` changes the kind of x only when the wrapped name is the name assigned to: `create = staticmethod(make)` binds a NEW
     # name and leaves `make` a plain function
@@ -477,3 +480,45 @@ def check_r03_11(repo: Repo, chk: Check) -> None:
                'the property created by _handlePropertyDef stays the target of attribute docstrings: a string statement after the property (even inside a later '
                '`if` block) replaces its docstring, or invents one for an undocumented property', repo.loc(hf.mod, c))
     chk.require('R03.11', 1)
+
+
+def check_r03_12(repo: Repo, chk: Check) -> None:
+    # (a) `_maybeAttribute` keeps `meth = wrap(meth)` from replacing the method `meth` by a variable - also when `meth` is inherited (tests pin that).  But
+    # `flush = None`, `Options = {}` in a subclass bind NEW class attributes that shadow the inherited method / nested class: the inherited definition may
+    # only veto the variable when the assigned value refers to that name
+    ma = repo.func('pydoctor.astbuilder._maybeAttribute')
+    cfm = CFG(ma)
+    finds = [c for c in calls_in(ma) if call_name(c) == 'find']
+    vparams = [a.arg for a in ma.params()][2:]
+    for c in finds:
+        cond = any(any(isinstance(x, ast.Name) and x.id in vparams for x in ast.walk(t)) for t, _pol in cfm.dominating_tests(cfm.stmt_of(c))) or \
+            any(isinstance(x, ast.Name) and x.id in vparams for p_ in parents(c) if isinstance(p_, (ast.If, ast.IfExp, ast.BoolOp)) for x in ast.walk(p_))
+        chk.ob('R03.12', 'pydoctor.astbuilder._maybeAttribute :: inherited definitions are consulted only for values that wrap them', cond and bool(vparams),
+               f'the search along the bases depends on the assigned value (`{vparams[0]}`)' if cond and vparams else
+               '`cls.find(name)` is consulted whatever is assigned: `class Fixed(Transport): timeout = 5; flush = None` documents neither name when Transport defines methods '
+               '`timeout` and `flush` - Python binds both in Fixed', repo.loc(ma.mod, c))
+    if not finds:
+        # no search along the bases at all: own namespace only (then the wrapping case of an inherited method is the caller's business)
+        chk.ob('R03.12', 'pydoctor.astbuilder._maybeAttribute :: inherited definitions are consulted only for values that wrap them', True, 'own namespace only', ma.loc)
+    # (b) `__doc__ = "..."` in the body of a module or class is its docstring (Python reports it as module.__doc__ / Class.__doc__)
+    ha = repo.func(f'{MV}._handleAssignment')
+    doc_b = any(isinstance(x, ast.Constant) and x.value == '__doc__' for n in ha.walk() if isinstance(n, ast.If) for x in ast.walk(n.test)
+                if any(isinstance(c, ast.Call) and call_name(c) == '_handleDocstringUpdate' for st in n.body for c in ast.walk(st)) and
+                any(isinstance(y, ast.Name) for y in ast.walk(n.test)))
+    # the existing route (attribute target `X.__doc__`) tests `.attr == '__doc__'`; the new one tests the NAME that is bound
+    name_route = any(isinstance(n, ast.If) and any(isinstance(x, ast.Constant) and x.value == '__doc__' for x in ast.walk(n.test)) and
+                     not any(isinstance(x, ast.Attribute) and x.attr == 'attr' for x in ast.walk(n.test)) and
+                     any(isinstance(c, ast.Call) and call_name(c) == '_handleDocstringUpdate' for st in n.body for c in ast.walk(st)) for n in ha.walk())
+    chk.ob('R03.12', f'{MV}._handleAssignment :: binding the name __doc__ in a module or class body sets its docstring', name_route,
+           'routed to _handleDocstringUpdate' if name_route else
+           '`__doc__ = """..."""` after the imports of a module, or in a class body, is documented as a variable named __doc__ and the module / class has no docstring', ha.loc)
+    # (c) `debug = 0` ... `debug, hosts = True, [...]`: the unpacking re-binds the name to a value the builder does not know; the literal of the earlier
+    # assignment must not survive as "the value" (its type would be inferred: `debug: int`)
+    hu = repo.func(f'{MV}._handleUnpackingTarget')
+    resets = any(isinstance(n, ast.Assign) and any(isinstance(t, ast.Attribute) and t.attr == 'value' for t in n.targets) and isinstance(n.value, ast.Constant) and
+                 n.value.value is None for n in hu.walk())
+    chk.ob('R03.12', f'{MV}._handleUnpackingTarget :: a name re-bound by unpacking forgets its earlier value', resets,
+           '`<attr>.value = None`' if resets else
+           '`_handleAssignment(target, None, None, ...)` leaves Attribute.value alone (storing None is a no-op): after `debug = 0; debug, hosts = True, []` the type of '
+           '`debug` is inferred from the stale literal as int', hu.loc)
+    chk.require('R03.12', 3)
